@@ -1,0 +1,482 @@
+//go:build verif
+
+package jet
+
+// Contracts for eval.go / exec.go / func.go (interpreter state), checked by /verif/jetvc.
+// Comments only; compiled only under the build tag "verif".
+
+//@ sort Trace
+//@ ghost T Trace
+
+// Everything the interpreter may change while executing template code. The parsed templates (all
+// node types, Template, Set) are deliberately absent: executing never modifies them (C10).
+//@ modset Interp := type Runtime.scope, type Runtime.context, type Runtime.content, type escapeeWriter.Writer, mapsof VarMap, ghost T, type sliceRanger.i, type sliceRanger.v, type mapRanger.iter, type mapRanger.hasMore, type chanRanger.v, type intsRanger.i, type intsRanger.val, mapsof map[reflect.Type]map[string][]int, global cachedStructsFieldIndex
+
+//@ pred RtOK(st *Runtime) := st != nil && st.scope != nil && st.escapeeWriter != nil && st.escapeeWriter.set != nil && st.escapeeWriter.set.gmx != nil
+// S(st): the interpreter state that enclosing constructs must leave as they found it.
+//@ pred SameS(st *Runtime) := st.scope == old(st.scope) && st.context == old(st.context) && st.content == old(st.content) && st.escapeeWriter.Writer == old(st.escapeeWriter.Writer)
+
+// ---- Node interface (all methods are promoted from NodeBase / NodeType) ---------------------------
+//@ ufunc NodeTypeOf(Node) NodeType
+//@ func (Node).Type
+//@   trusted every implementation is NodeType.Type promoted through NodeBase (checked by scan)
+//@   nopanic
+//@   ensures result == NodeTypeOf(recv)
+//@ func (Node).errorf
+//@   trusted every implementation is (*NodeBase).errorf
+//@   noreturn
+//@ func (Node).error
+//@   trusted every implementation is (*NodeBase).error
+//@   noreturn
+//@ func (Node).String
+//@   trusted String methods of nodes only read the tree
+//@   nopanic
+//@ func (Node).Position
+//@   trusted promoted from Pos
+//@   nopanic
+//@ func (Node).line
+//@   trusted promoted from NodeBase
+//@   nopanic
+//@ func (*NodeBase).errorf
+//@   props C12
+//@   noreturn
+//@ func (*NodeBase).error
+//@   props C12
+//@   noreturn
+
+// ---- user-supplied callees ---------------------------------------------------------------------------
+// A jet.Func receives the *Runtime (inside Arguments) and may use the Runtime API; it is assumed to
+// leave S(st) as it found it (the API methods themselves are verified below).
+//@ func type:Func
+//@   trusted user code: assumed balanced
+//@   params a
+//@   modifies @Interp
+//@   ensures a.runtime.scope == old(a.runtime.scope) && a.runtime.context == old(a.runtime.context) && a.runtime.content == old(a.runtime.content) && a.runtime.escapeeWriter.Writer == old(a.runtime.escapeeWriter.Writer)
+//@ func (Renderer).Render
+//@   trusted user code: assumed balanced
+//@   params recv, st
+//@   modifies @Interp
+//@   ensures SameS(st)
+//@ func (Ranger).Range
+//@   trusted user code or one of the pooled rangers
+//@   modifies type sliceRanger.i, type mapRanger.hasMore, type intsRanger.i, type intsRanger.val
+//@ func (Ranger).ProvidesIndex
+//@   trusted user code or one of the pooled rangers
+//@   nopanic
+//@ func (pooledRanger).Setup
+//@   trusted one of the pooled rangers
+//@   modifies type sliceRanger.i, type sliceRanger.v, type mapRanger.iter, type mapRanger.hasMore, type chanRanger.v
+//@ func (io.Writer).Write
+//@   trusted user writer: appends to its own output only
+//@   params w, b
+//@   modifies ghost T
+//@   ensures T == EvWrite(old(T), w, b)
+//@ ufunc EvWrite(Trace, io.Writer, []byte) Trace
+//@ ufunc EvEsc(Trace, SafeWriter, io.Writer, []byte) Trace
+//@ ufunc EvPrint(Trace, io.Writer, reflect.Value) Trace
+//@ ufunc EvCopy(Trace, io.Writer, io.Reader) Trace
+//@ func fastprinter.PrintValue
+//@   trusted dependency: writes the printed form of v to w (through w.Write) and nothing else
+//@   params w, v
+//@   modifies ghost T
+//@   ensures T == EvPrint(old(T), w, v)
+//@ func io.Copy
+//@   trusted io library
+//@   params dst, src
+//@   modifies ghost T
+//@   ensures T == EvCopy(old(T), dst, src)
+
+// ---- scopes ---------------------------------------------------------------------------------------------
+
+//@ func (*Runtime).newScope
+//@   props C07 C13 C09
+//@   requires RtOK(st)
+//@   modifies st.scope
+//@   nopanic
+//@   ensures [new-scope-chains-to-old] fresh(st.scope) && st.scope.parent == old(st.scope) && st.scope.blocks == old(st.scope.blocks) && st.scope.variables != nil && fresh(st.scope.variables)
+
+//@ func (*Runtime).releaseScope
+//@   props C07 C13 C09
+//@   nocrash
+//@   requires st != nil
+//@   modifies st.scope
+//@   nopanic
+//@   ensures [release-pops-one-scope] st.scope == old(st.scope.parent)
+
+//@ func (*Runtime).Context
+//@   props C18
+//@   requires r != nil
+//@   nopanic
+//@   ensures [context-is-dot] result == r.context
+
+//@ func (*scope).getBlock
+//@   props C08
+//@   requires st != nil
+//@   nopanic
+//@   loop 0 invariant st != nil
+//@   ensures [innermost-scope-wins] has(old(st.blocks), name) ==> has == true && block == old(st.blocks)[name]
+//@   ensures [second-scope-next] !has(old(st.blocks), name) && old(st.parent) != nil && has(old(st.parent.blocks), name) ==> has == true && block == old(st.parent.blocks)[name]
+//@   ensures [no-scope-no-block] !has(old(st.blocks), name) && old(st.parent) == nil ==> has == false
+
+//@ func (*Runtime).setValue
+//@   props C07 C18
+//@   requires RtOK(state)
+//@   modifies mapsof VarMap
+//@   nopanic
+//@   loop 0 invariant (sc == state.scope || !has(state.scope.variables, name)) && (state.scope.parent == nil ==> sc == state.scope || sc == nil)
+//@   ensures [rebinding-innermost] has(old(state.scope.variables), name) ==> result == nil && state.scope.variables[name] == val
+//@   ensures [rebinding-keeps-other-names] has(old(state.scope.variables), name) ==> forallT(k, "string", k != name ==> state.scope.variables[k] == old(state.scope.variables[k]) && has(state.scope.variables, k) == old(has(state.scope.variables, k)))
+//@   ensures [undeclared-is-an-error] !has(old(state.scope.variables), name) && old(state.scope.parent) == nil ==> result != nil
+
+//@ func (*Runtime).Set
+//@   props C18
+//@   requires RtOK(state)
+//@   modifies mapsof VarMap
+//@   nopanic
+//@   callsite (*Runtime).setValue count 1
+//@   callsite (*Runtime).setValue 0 requires name == caller.name && val == RvOf(caller.val)
+//@   ensures [set-is-rebinding] has(old(state.scope.variables), name) ==> result == nil
+//@   ensures [set-undeclared-is-an-error] !has(old(state.scope.variables), name) && old(state.scope.parent) == nil ==> result != nil
+
+//@ func (*Runtime).Let
+//@   props C18 C12
+//@   requires RtOK(state)
+//@   modifies map state.scope.variables
+//@   nopanic
+//@   ensures [let-declares-in-innermost-scope] has(state.scope.variables, name) && forallT(k, "string", k != name ==> state.scope.variables[k] == old(state.scope.variables[k]) && has(state.scope.variables, k) == old(has(state.scope.variables, k)))
+
+//@ func (*Runtime).LetGlobal
+//@   props C18 C12
+//@   requires RtOK(state)
+//@   modifies mapsof VarMap
+//@   nopanic
+//@   loop 0 invariant sc != nil && (state.scope.parent == nil || state.scope.parent.variables == nil ==> sc == state.scope)
+//@   ensures [letglobal-single-scope] old(state.scope.parent) == nil || old(state.scope.parent.variables) == nil ==> has(state.scope.variables, name)
+
+//@ func (*Runtime).resolve
+//@   props C07 C18 C17
+//@   requires RtOK(state)
+//@   nopanic
+//@   loop 0 invariant (sc == state.scope || !has(state.scope.variables, name)) && (state.scope.parent == nil ==> sc == state.scope || sc == nil)
+//@   ensures [dot-is-context] name == "." ==> result0 == state.context && result1 == nil
+//@   ensures [innermost-scope-first] name != "." && has(state.scope.variables, name) ==> result1 == nil && result0 == EfaceOf(state.scope.variables[name])
+//@   ensures [scopes-before-globals-before-builtins] name != "." && !has(state.scope.variables, name) && state.scope.parent == nil && has(state.escapeeWriter.set.globals, name) ==> result1 == nil && result0 == EfaceOf(state.escapeeWriter.set.globals[name])
+//@   ensures [builtins-last] name != "." && !has(state.scope.variables, name) && state.scope.parent == nil && !has(state.escapeeWriter.set.globals, name) ==> ite(has(defaultVariables, name), result1 == nil && result0 == EfaceOf(defaultVariables[name]), result1 != nil)
+
+//@ ufunc EfaceOf(reflect.Value) reflect.Value
+//@ func indirectEface
+//@   props C07 C17
+//@   nocrash
+//@   nopanic
+//@   ensures result == EfaceOf(v)
+//@ func (*sync.RWMutex).RLock
+//@   trusted sync library
+//@   nopanic
+//@ func (*sync.RWMutex).RUnlock
+//@   trusted sync library
+//@   nopanic
+//@ func (*sync.RWMutex).Lock
+//@   trusted sync library
+//@   nopanic
+//@ func (*sync.RWMutex).Unlock
+//@   trusted sync library
+//@   nopanic
+
+//@ func (*Runtime).Resolve
+//@   props C18
+//@   requires RtOK(state)
+//@   nopanic
+//@   callsite (*Runtime).resolve count 1
+
+//@ func (*Runtime).MustResolve
+//@   props C18
+//@   requires RtOK(state)
+//@   callsite (*Runtime).resolve count 1
+
+// ---- helpers that do not touch interpreter state (their bodies are checked to store nothing) ----
+//@ func notNil
+//@   props C10 C07
+//@   nocrash
+//@ func toInt
+//@   props C10 C07
+//@   nocrash
+//@ func toUint
+//@   props C10 C07
+//@   nocrash
+//@ func toFloat
+//@   props C10 C07
+//@   nocrash
+//@ func getTypeString
+//@   props C10 C07
+//@   nocrash
+//@ func isUint
+//@   props C10 C07
+//@   nocrash
+//@ func isInt
+//@   props C10 C07
+//@   nocrash
+//@ func isFloat
+//@   props C10 C07
+//@   nocrash
+//@ func checkEquality
+//@   props C10 C07
+//@   nocrash
+//@   loop 0 invariant true
+//@   loop 1 invariant true
+//@   loop 2 invariant true
+//@   loop 3 invariant true
+//@ func isTrue
+//@   props C10 C07
+//@   nocrash
+//@ func canNumber
+//@   props C10 C07
+//@   nocrash
+//@ func castInt64
+//@   props C10 C07
+//@   nocrash
+//@ func indirect
+//@   props C10 C07
+//@   nocrash
+//@   loop 0 invariant true
+//@ func indirectInterface
+//@   props C10 C07
+//@   nocrash
+//@ func indexArg
+//@   props C10 C07
+//@   nocrash
+//@ func buildCache
+//@   props C10
+//@   nocrash
+//@   modifies map cache
+//@   loop 0 invariant true
+//@ func resolveIndex
+//@   props C10
+//@   nocrash
+//@   modifies mapsof map[reflect.Type]map[string][]int, global cachedStructsFieldIndex
+//@   loop 0 invariant true
+//@ func getRanger
+//@   props C10 C05
+//@   nocrash
+//@   modifies type sliceRanger.i, type sliceRanger.v, type mapRanger.iter, type mapRanger.hasMore, type chanRanger.v
+//@ func (*sync.Pool).Get
+//@   trusted sync library
+//@   nopanic
+//@ func (*sync.Pool).Put
+//@   trusted sync library
+//@   nopanic
+
+// ---- evaluation: every evaluator leaves S(st) as it found it on normal return ----------------------
+//@ func (*Runtime).evalPrimaryExpressionGroup
+//@   props C07 C13 C10
+//@   nocrash
+//@   requires RtOK(st)
+//@   modifies @Interp
+//@   ensures [balanced] SameS(st)
+//@ func (*Runtime).evalNumericComparativeExpression
+//@   props C07 C13 C10
+//@   nocrash
+//@   requires RtOK(st)
+//@   modifies @Interp
+//@   ensures [balanced] SameS(st)
+//@ func (*Runtime).evalLogicalExpression
+//@   props C07 C13 C10
+//@   nocrash
+//@   requires RtOK(st)
+//@   modifies @Interp
+//@   ensures [balanced] SameS(st)
+//@ func (*Runtime).evalComparativeExpression
+//@   props C07 C13 C10
+//@   nocrash
+//@   requires RtOK(st)
+//@   modifies @Interp
+//@   ensures [balanced] SameS(st)
+//@ func (*Runtime).evalMultiplicativeExpression
+//@   props C07 C13 C10
+//@   nocrash
+//@   requires RtOK(st)
+//@   modifies @Interp
+//@   ensures [balanced] SameS(st)
+//@ func (*Runtime).evalAdditiveExpression
+//@   props C07 C13 C10
+//@   nocrash
+//@   requires RtOK(st)
+//@   modifies @Interp
+//@   ensures [balanced] SameS(st)
+//@ func (*Runtime).evalBaseExpressionGroup
+//@   props C07 C13 C10
+//@   nocrash
+//@   requires RtOK(st)
+//@   modifies @Interp
+//@   loop 0 invariant SameS(st) && RtOK(st)
+//@   ensures [balanced] SameS(st)
+//@ func (*Runtime).evalCallExpression
+//@   props C07 C13 C10
+//@   nocrash
+//@   requires RtOK(st)
+//@   modifies @Interp
+//@   ensures [balanced] SameS(st)
+//@ func (*Runtime).evalPipeCallExpression
+//@   props C07 C13 C10
+//@   nocrash
+//@   requires RtOK(st)
+//@   modifies @Interp, cell pipedArg
+//@   ensures [balanced] SameS(st)
+//@ func (*Runtime).evalCommandExpression
+//@   props C07 C13 C10
+//@   nocrash
+//@   requires RtOK(st)
+//@   modifies @Interp
+//@   ensures [balanced] SameS(st)
+//@ func (*Runtime).evalChainNodeExpression
+//@   props C07 C13 C10
+//@   nocrash
+//@   requires RtOK(st)
+//@   modifies @Interp
+//@   loop 0 invariant SameS(st) && RtOK(st)
+//@   ensures [balanced] SameS(st)
+//@ func (*Runtime).evalSafeWriter
+//@   props C07 C13 C10
+//@   nocrash
+//@   requires RtOK(st)
+//@   modifies @Interp
+//@   loop 0 invariant SameS(st) && RtOK(st)
+//@   loop 1 invariant SameS(st) && RtOK(st)
+//@   ensures [balanced] SameS(st)
+//@ func (*Runtime).evalCommandPipeExpression
+//@   props C07 C13 C10
+//@   nocrash
+//@   requires RtOK(st)
+//@   modifies @Interp
+//@   ensures [balanced] SameS(st)
+//@ func (*Runtime).evalPipelineExpression
+//@   props C07 C13 C10
+//@   nocrash
+//@   requires RtOK(st)
+//@   modifies @Interp
+//@   loop 0 invariant SameS(st) && RtOK(st)
+//@   ensures [balanced] SameS(st)
+//@ func (*Runtime).evaluateArgs
+//@   props C07 C13 C10
+//@   nocrash
+//@   requires RtOK(st)
+//@   modifies @Interp, cell pipedArg
+//@   loop 0 invariant SameS(st) && RtOK(st)
+//@   loop 1 invariant SameS(st) && RtOK(st)
+//@   ensures [balanced] SameS(st)
+//@ func (*Runtime).executeSet
+//@   props C07 C13 C10
+//@   nocrash
+//@   requires RtOK(st)
+//@   modifies @Interp
+//@   loop 0 invariant SameS(st) && RtOK(st)
+//@   loop 1 invariant SameS(st) && RtOK(st)
+//@   ensures [balanced] SameS(st)
+//@ func (*Runtime).executeSetList
+//@   props C07 C13 C10
+//@   nocrash
+//@   requires RtOK(st)
+//@   modifies @Interp
+//@   loop 0 invariant SameS(st) && RtOK(st)
+//@   ensures [balanced] SameS(st)
+//@ func (*Runtime).executeLetList
+//@   props C07 C13 C10
+//@   nocrash
+//@   requires RtOK(st)
+//@   modifies @Interp
+//@   loop 0 invariant SameS(st) && RtOK(st)
+//@   ensures [balanced] SameS(st)
+
+//@ func (*Runtime).isSet
+//@   props C17 C07
+//@   nocrash
+//@   requires RtOK(st)
+//@   modifies @Interp
+//@   nopanic
+//@   loop 0 invariant RtOK(st)
+
+//@ func (*Arguments).Get
+//@   props C14 C18
+//@   nocrash
+//@   requires a != nil && RtOK(a.runtime)
+//@   modifies @Interp
+//@   ensures a.runtime.scope == old(a.runtime.scope) && a.runtime.context == old(a.runtime.context) && a.runtime.content == old(a.runtime.content) && a.runtime.escapeeWriter.Writer == old(a.runtime.escapeeWriter.Writer)
+
+// ---- executors ------------------------------------------------------------------------------------------
+
+// cleanup closures returned by getRanger (getRanger$1, getRanger$2): only sync.Pool.Put
+//@ func dynamic:func()
+//@   trusted the only func() values called in this package are getRanger's cleanup closures
+//@   nopanic
+
+// Runtime.content: the closure built by executeYieldBlock (executeYieldBlock$1 refines this)
+//@ func field:Runtime.content
+//@   props C07 C08 C13
+//@   params st, expression
+//@   requires RtOK(st)
+//@   modifies @Interp
+//@   ensures [content-closure-balanced] SameS(st)
+
+//@ func (*Runtime).executeYieldBlock$1
+//@   refines field:Runtime.content
+//@   nocrash
+//@   requires *myscope != nil
+//@   callsite (*Runtime).executeList * requires st.scope == *myscope && st.content == *mycontent
+//@   callsite (*Runtime).executeList count 2
+
+//@ func (*Runtime).executeYieldBlock
+//@   props C07 C08 C13 C10
+//@   nocrash
+//@   requires RtOK(st)
+//@   modifies @Interp
+//@   loop 0 invariant RtOK(st) && st.scope.parent == old(st.scope) && st.context == old(st.context) && st.content == old(st.content) && st.escapeeWriter.Writer == old(st.escapeeWriter.Writer)
+//@   loop 1 invariant RtOK(st) && st.scope.parent == old(st.scope) && st.context == old(st.context) && st.content == old(st.content) && st.escapeeWriter.Writer == old(st.escapeeWriter.Writer)
+//@   ensures [yield-balanced] SameS(st)
+
+//@ func (*Runtime).executeList
+//@   props C07 C13 C10 C09 C05 C12
+//@   nocrash
+//@   requires RtOK(st)
+//@   modifies @Interp
+//@   loop 0 invariant [rt] RtOK(st)
+//@   loop 0 invariant [ctx] st.context == old(st.context)
+//@   loop 0 invariant [content] st.content == old(st.content)
+//@   loop 0 invariant [writer] st.escapeeWriter.Writer == old(st.escapeeWriter.Writer)
+//@   loop 0 invariant [defer] deferred(0) == inNewScope
+//@   loop 0 invariant [scope] ite(inNewScope, st.scope.parent == old(st.scope), st.scope == old(st.scope))
+//@   loop 1 invariant [rt] RtOK(st)
+//@   loop 1 invariant [content] st.content == old(st.content)
+//@   loop 1 invariant [writer] st.escapeeWriter.Writer == old(st.escapeeWriter.Writer)
+//@   loop 1 invariant [defer] deferred(0) == inNewScope
+//@   loop 1 invariant [ctx] context == old(st.context)
+//@   loop 1 invariant [scope] ite(isLet, st.scope.parent != nil && ite(inNewScope, st.scope.parent.parent == old(st.scope), st.scope.parent == old(st.scope)), ite(inNewScope, st.scope.parent == old(st.scope), st.scope == old(st.scope)))
+//@   ensures [list-balanced-scope] st.scope == old(st.scope)
+//@   ensures [list-balanced-context] st.context == old(st.context)
+//@   ensures [list-balanced-content] st.content == old(st.content)
+//@   ensures [list-balanced-writer] st.escapeeWriter.Writer == old(st.escapeeWriter.Writer)
+
+//@ func (*Runtime).executeTry
+//@   props C13 C07 C10
+//@   nocrash
+//@   requires RtOK(st)
+//@   modifies @Interp
+//@   ensures [try-leaves-no-trace] SameS(st)
+
+//@ func (*Runtime).executeInclude
+//@   props C09 C07 C13
+//@   nocrash
+//@   requires RtOK(st)
+//@   modifies @Interp
+//@   loop 0 invariant RtOK(st) && st.scope.parent == old(st.scope) && st.content == old(st.content) && st.escapeeWriter.Writer == old(st.escapeeWriter.Writer) && deferred(0)
+//@   ensures [include-leaks-nothing] SameS(st)
+
+//@ func (*Runtime).YieldBlock
+//@   props C18 C07
+//@   nocrash
+//@   requires RtOK(st)
+//@   modifies @Interp
+//@   ensures [yieldblock-balanced] SameS(st)
+//@   callsite (*Runtime).executeList count 1
+
+//@ func (*Set).getSiblingTemplate
+//@   props C15 C16
+//@   requires s != nil
